@@ -28,7 +28,7 @@ SPEC = dict(
     harness_args=["c12"],
     driver_args=["c12"],
     ml_modules=["tfm_model"],
-    n={"quick": 800, "thorough": 20000},
+    n={"quick": 800, "thorough": 15000},
     search_n={"quick": 4000, "thorough": 40000},
     nontrivial=nontrivial,
     histogram=histogram,
